@@ -79,6 +79,22 @@ pub fn slice_map<T, U, F: Fn(&T) -> U>(s: &[T], f: F) -> (r: Vec<U>)
     ensures r@.len() == s@.len(), forall|i: int| 0 <= i < s@.len() ==> call_ensures(f, (&s@[i],), #[trigger] r@[i]),
 { unimplemented!() }
 
+// ---- v.extend(s.iter().flat_map(f))  ==  extend_concat(v, slice_map(s, f)) ------------------------------------------------
+/// concatenation of a sequence of vectors
+pub open spec fn concat_vecs<T>(ss: Seq<Vec<T>>) -> Seq<T> decreases ss.len() {
+    if ss.len() == 0 { Seq::<T>::empty() } else { concat_vecs(ss.drop_last()) + ss.last()@ }
+}
+/// std: Extend::extend over a flattened iterator appends the elements of every chunk in order
+#[verifier::external_body]
+pub fn extend_concat<T>(v: &mut Vec<T>, chunks: &Vec<Vec<T>>)
+    ensures final(v)@ == old(v)@ + concat_vecs(chunks@),
+{ unimplemented!() }
+/// std: flat_map(..).collect::<Vec<_>>()
+#[verifier::external_body]
+pub fn collect_concat<T>(chunks: &Vec<Vec<T>>) -> (r: Vec<T>)
+    ensures r@ == concat_vecs(chunks@),
+{ unimplemented!() }
+
 // ---- v.drain(0..1).collect::<Vec<_>>() -----------------------------------------------------------------------
 /// removes and returns the first element (std: `drain(0..1)` PANICS when the vector is empty, hence the precondition)
 #[verifier::external_body]
